@@ -470,7 +470,12 @@ class Module:
         self.aliases = {}       # name -> target name
         self.funcs = {}         # name -> Function
         self.global_ctors_src = None
+        self.ctor_of_global = {}   # data global name -> dynamic initialiser function (comdat-associated global ctors)
         self._split(open(path).read())
+        src = self.globals_src.get('llvm.global_ctors')
+        if src:
+            for mm in re.finditer(r'void \(\)\* (@(?:"(?:[^"\\]|\\.)*"|[-a-zA-Z$._0-9]+)), i8\* bitcast \([^@]*(@(?:"(?:[^"\\]|\\.)*"|[-a-zA-Z$._0-9]+)) to i8\*\)', src):
+                self.ctor_of_global[unquote(mm.group(2))] = unquote(mm.group(1))
 
     # -- splitting -----------------------------------------------------------
     def _split(self, text):
